@@ -913,6 +913,7 @@ def run(ctx):
     run_antichain(ctx, ctx.budget(450, 6000))
     run_cyclic_width(ctx, ctx.budget(120, 2000))
     gencheck01.run_generated_c17(ctx)      # generated-model tie of stDiGraph.is_scc_edge (coq/gen_proofs)
+    import e3mincut; e3mincut.run_mincut_e3(ctx, ctx.budget(300, 6000))   # residual search + antichain extraction on the tapped minimum flow
 
 
 def replay(ctx, body):
